@@ -37,8 +37,8 @@ impl Property for C40 {
 
     fn runs(&self, tier: Tier) -> u64 {
         match tier {
-            Tier::Quick => 5 * 11 * 4,
-            Tier::Thorough => 5 * 11 * 300,
+            Tier::Quick => 5 * 11 * 6,
+            Tier::Thorough => 5 * 11 * 1200,
         }
     }
 
